@@ -9,6 +9,7 @@ def run(ctx):
     if not ok: vf.finish(ctx)
     demcheck.campaign(ctx)
     demcheck.matrix(ctx)
+    demcheck.big_metadata(ctx)
     ctx.nontrivial = set(ctx.hist)
     ctx.samples = ['PKE plaintext lengths 0,1,15,16,17,31,32,33,70,255,256,257,4095,4096,4097; every truncation <= 80 bytes and at the tail; one altered bit at every position <= 120 and at the tail',
                    'header: metadata in {absent, empty, 1, 15, 16, 17, 300 bytes} x authentication data in {absent, empty, "a", "ad", "ad2", 40 bytes} generated x the same six presented; unauthorized key; truncations and altered bytes of the encrypted metadata']
@@ -20,6 +21,14 @@ def run(ctx):
 
 def replay(ctx, path):
     rep = json.load(open(path)); vf.build_harness(ctx)
+    if 'bigmeta' in rep:
+        import demcheck
+        vf.build_harness(ctx); d = demcheck.Demd(); o = d.ask(f"HDRBIG {rep['bigmeta']}"); d.close()
+        print(o.replace('_', ' ')[:600]); return 0 if o.split(' ')[-1] == '-' else 1
+    if 'big' in rep:
+        import demcheck
+        vf.build_harness(ctx); d = demcheck.Demd(); o = d.ask(f"PKEBIG {rep['big']}"); d.close()
+        print(o.replace('_', ' ')[:600]); return 0 if o.split(' ')[-1] == '-' else 1
     if rep.get('matrix'):
         demcheck.matrix(ctx, 12)
         bad = [o for o in ctx.obligations if not o['ok']]
